@@ -8,29 +8,32 @@ theorem grantInv {c : Nat} {s : S} (h : Reachable c s) : GrantInv s := by
   | step s s' hr st ih =>
     have t := tree hr
     cases st with
-    | useNeg => exact grantInv_same ih rfl rfl rfl rfl rfl rfl rfl (fun _ h => h)
+    | useNeg => exact grantInv_same ih rfl rfl rfl rfl rfl rfl rfl (fun _ h => h) rfl
     | useZero l hl h0 h1 =>
-      refine grantInv_grant ih l 0 hl rfl rfl rfl rfl ?_ rfl rfl (fun _ => rfl)
+      refine grantInv_grant ih l 0 hl rfl rfl rfl rfl ?_ rfl rfl (fun _ => rfl) rfl
       funext x
       simp [doUseZero, charge]
-    | useClosed => exact grantInv_same ih rfl rfl rfl rfl rfl rfl rfl (fun _ h => h)
-    | useTooBig => exact grantInv_same ih rfl rfl rfl rfl rfl rfl rfl (fun _ h => h)
-    | useGrant l amt hl ha h0 h1 h2 h3 => exact grantInv_grant ih l amt hl rfl rfl rfl rfl rfl rfl rfl (fun _ => rfl)
-    | useWait => exact grantInv_same ih rfl rfl rfl rfl rfl rfl rfl (fun _ h => h)
+    | useClosed => exact grantInv_same ih rfl rfl rfl rfl rfl rfl rfl (fun _ h => h) rfl
+    | useTooBig => exact grantInv_same ih rfl rfl rfl rfl rfl rfl rfl (fun _ h => h) rfl
+    | useGrant l amt hl ha h0 h1 h2 h3 => exact grantInv_grant ih l amt hl rfl rfl rfl rfl rfl rfl rfl (fun _ => rfl) rfl
+    | useWait => exact grantInv_same ih rfl rfl rfl rfl rfl rfl rfl (fun _ h => h) rfl
     | newChild p cp hp h0 h1 => exact grantInv_newChild s p cp t ih
-    | closeChild l hl hr' h0 h1 => exact grantInv_same ih rfl rfl rfl rfl rfl rfl rfl (resets_closeChild s l)
-    | closeRoot => exact grantInv_same ih rfl rfl rfl rfl rfl rfl rfl (fun _ h => h)
-    | tickFires => exact grantInv_same ih rfl rfl rfl rfl rfl rfl rfl (fun _ h => h)
+    | closeChild l hl hr' h0 h1 => exact grantInv_same ih rfl rfl rfl rfl rfl rfl rfl (resets_closeChild s l) rfl
+    | closeRoot => exact grantInv_same ih rfl rfl rfl rfl rfl rfl rfl (fun _ h => h) rfl
+    | tickFires => exact grantInv_same ih rfl rfl rfl rfl rfl rfl rfl (fun _ h => h) rfl
     | tickRuns h1 h0 => exact grantInv_tick s (capInv hr) (queueOk hr) ih
-    | doneReceived => exact grantInv_same ih rfl rfl rfl rfl rfl rfl rfl (fun _ h => h)
-    | drain => exact grantInv_same ih rfl rfl rfl rfl rfl rfl rfl (fun _ h => h)
+    | doneReceived => exact grantInv_same ih rfl rfl rfl rfl rfl rfl rfl (fun _ h => h) rfl
+    | drain => exact grantInv_same ih rfl rfl rfl rfl rfl rfl rfl (fun _ h => h) rfl
+    | setCap l cc hl h0 =>
+      exact ⟨ih.period_le, ih.chain_eq, ih.cur_le, ih.cur_eq, fun hz => absurd hz (Nat.succ_ne_zero _), ih.last_eq⟩
 
-/-- in no period is more granted to a limiter and its descendants than its capacity -/
-theorem gsum_le_cap {c : Nat} {s : S} (h : Reachable c s) (p x : Nat) : gsum p x s.glog ≤ s.cap x := by
+/-- in no period is more granted to a limiter and its descendants than its capacity (while `SetCap` is not used) -/
+theorem gsum_le_cap {c : Nat} {s : S} (h : Reachable c s) (hz : s.setCaps = 0) (p x : Nat) :
+    gsum p x s.glog ≤ s.cap x := by
   have gi := grantInv h
   rcases Nat.lt_trichotomy p s.ticks with hp | hp | hp
-  · exact gi.past p hp x
-  · subst hp; exact Nat.le_trans (gi.cur_le x) (capInv h x)
+  · exact gi.past hz p hp x
+  · subst hp; exact Nat.le_trans (gi.cur_le x) (capInv h hz x)
   · rw [gsum_zero_of_period]
     · exact Nat.zero_le _
     · intro g hg; have := gi.period_le g hg; omega
@@ -73,6 +76,7 @@ theorem ok_granted {c : Nat} {s : S} (h : Reachable c s) (id : Nat) (hok : (id, 
     | closeRoot => exact ih hok
     | tickFires => exact ih hok
     | doneReceived => exact ih hok
+    | setCap => exact ih hok
 
 /-- no grant is ever made to a limiter that is closed at that moment -/
 theorem grant_open {s s' : S} (st : Step s s') : ∀ g ∈ s'.glog, g ∈ s.glog ∨ s.closed g.lim = false := by
@@ -127,6 +131,24 @@ theorem service_closed (cap : Nat → Nat) (chain : Nat → List Nat) (closed : 
     simp only [service]
     rcases List.mem_cons.mp hr with h | h
     · subst h; simp [hc]
+    · split
+      · exact List.mem_cons_of_mem _ (ih used h)
+      · split
+        · exact List.mem_cons_of_mem _ (ih used h)
+        · split
+          · exact List.mem_cons_of_mem _ (ih _ h)
+          · exact ih used h
+
+/-- a queued request whose limiter's cap has meanwhile been lowered below its amount fails at the next tick -/
+theorem service_toobig (cap : Nat → Nat) (chain : Nat → List Nat) (closed : Nat → Bool) (p : Nat)
+    (used : Nat → Nat) (w : List Req) (r : Req) (hr : r ∈ w) (hc : closed r.lim = false) (hb : r.amt > cap r.lim) :
+    (r.id, Ans.errCap) ∈ (service cap chain closed p used w).answers := by
+  induction w generalizing used with
+  | nil => cases hr
+  | cons r' rs ih =>
+    simp only [service]
+    rcases List.mem_cons.mp hr with h | h
+    · subst h; simp [hc, hb]
     · split
       · exact List.mem_cons_of_mem _ (ih used h)
       · split
